@@ -8,7 +8,8 @@ RULE = ("the serde schema is re-extracted from /repo/src on every run and checke
         "trips of samplers built through the public API (catalogue/random graphs, D=1..6 with D*L odd and even, signatures with negative "
         "entries and |entries|>=2, vacuum graphs without externals, disconnected graphs, tables with values beyond 2^63, 8-edge graphs) through serde_json (text), serde_json::Value, "
         "ciborium (binary, exact f64) and the harness's own value-tree format with structs as maps and as SEQUENCES, comparing getters, "
-        "table, signature and 40 (quick) / 400 (thorough) samples bit for bit. Non-trivial: multi-loop sampler or negative signature entry")
+        "table, signature and 40 (quick) / 400 (thorough) samples bit for bit. Non-trivial: multi-loop sampler or negative signature entry"
+        " Also: ragged signatures, a 16-loop rose, cached_factor = +inf, table values beyond 2^63, vacuum/disconnected/8-edge graphs.")
 ASSUMPTIONS = ["serde derive semantics (struct = map of all fields in order) is the model; the real formats are exercised by the round trips"]
 TRUSTED_EXTRA = ["translator /verif/mtv/serde_schema.py (regex extraction of struct fields and serde attributes from lib.rs, preprocessing.rs)"]
 
@@ -77,6 +78,15 @@ def run(ctx):
         for fmt in ("cbor", "wire_seq"):
             reqs.append(dict(op="serde", D=1, edges=[[0, 0, f2b(0.75), True] for _ in rose], ext=[], sig=sig16, edge_data=ed16, points=pts16,
                              format=fmt, meta=True)); infos.append((s16, fmt))
+    # a dimension far beyond one byte (D is an unbounded const generic): massive bubble in D = 260
+    e260 = [[0, 1, f2b(70.0), True], [0, 1, f2b(70.25), True]]
+    c260 = dict(edges=[(0, 1), (0, 1)], weights=[70.0, 70.25], massive=[True, True], ext=[0, 1], D=260, name="bubble_D260", dod=None, loops=1)
+    sig260 = [[1], [1]]
+    ed260 = [[f2b(1.0), [f2b(0.0)] * 260], [f2b(1.5), [f2b(0.25 * ((i % 5) - 2)) for i in range(260)]]]
+    pts260 = [[f2b(rng.random()) for _ in range(263)] for _ in range(3)]
+    s260 = dict(case=c260, routing=dict(sig=sig260, L=1), req=dict(edge_data=ed260))
+    for fmt in ("cbor", "wire_seq", "json"):
+        reqs.append(dict(op="serde", D=260, edges=e260, ext=[0, 1], sig=sig260, edge_data=ed260, points=pts260, format=fmt, meta=True)); infos.append((s260, fmt))
     res = run_harness(reqs)
     exp = expected_keys(structs)
     for rq, a, (s, fmt) in zip(reqs, res, infos):
